@@ -276,8 +276,11 @@ def selectSlice (fo : FloatOps) (h : HN) (axis : Nat) (start stop : Option Int) 
 def transpose (h : HN) : HN :=
   { h with axes := h.axes.reverse, names := h.names.reverse, freq := h.freq.transpose, err2 := h.err2.transpose }
 
-/-- `accumulate(axis)` (errors are left as they are, as in the implementation) -/
-def accumulate (h : HN) (axis : Nat) : HN := { h with freq := h.freq.cumsum axis }
+/-- `accumulate(axis)` (errors are left as they are, as in the implementation); `ndarray.cumsum` accumulates
+    narrow integers in the platform integer and the content type follows (the result is assigned through
+    the `frequencies` setter, which promotes) -/
+def accumulate (h : HN) (axis : Nat) : HN :=
+  { h with freq := h.freq.cumsum axis, dtype := if h.dtype.isInt then .i64 else h.dtype }
 
 /-- `merge_bins` along one axis with an explicit map -/
 def mergeAxisWithMap (fo : FloatOps) (h : HN) (axis : Nat) (map : List Nat) : R HN := do
